@@ -1746,6 +1746,7 @@ func runC19(r *Run) error {
 		id++
 	}
 	cf.Close("c19g_mismatches")
+	c19GrownChampion(r)
 	r.Note("gonum's amd64 Sum adds in an order that depends on whether the slice starts on a 16-byte boundary; the model takes that bit as an input and reproduces Sum/Mean/Variance/StdDev bit-exactly for both alignments")
 	return nil
 }
